@@ -38,7 +38,7 @@ Dy == INSTANCE Dyadic
 (* a decimal literal times a unit, by the rule of C18 (used by the duration grammar) *)
 F64MulUnitR(dec, u) == M!Clamp(Dy!MulTrunc(Dy!DecToDouble(dec), Ur[u].m))
 
-X == INSTANCE Efmt WITH
+X == INSTANCE Extras WITH
        NPC <- NPCr, CMIN <- -32768, CMAX <- 32767,
        N <- B!FromInt, I <- B!ToInt,
        Add <- B!Add, Sub <- B!Sub, Mul <- B!Mul, QuotT <- B!QuotT,
